@@ -576,7 +576,11 @@ def variants(prop, tier, cases):
         # virtual-keyboard-while-waiting-in-tablet-mode, C19-redundant-event-written-to-the-device)
         pool = [c for c in cases if any(l["a"] == "arrK" and l["t"] == "R" for l in c["sched"]) or any(l["a"] == "arrT" for l in c["sched"])] or cases
         step = max(1, len(pool) // (120 if tier == "quick" else 1200))
-        out += [dict(c, id=c["id"] + "-flt", faults="all") for c in pool[::step]]
+        flt = [dict(c, id=c["id"] + "-flt", faults="all") for c in pool[::step]]
+        out += flt
+        # ... and every second of them under the REAL driver with the failing write answered EAGAIN (the errno a writer or driver is most likely to treat
+        # as "nothing happened"): chosen here rather than left to the rotation below, so that it does not depend on where in the list a schedule falls
+        out_eagain = [dict(c, id=c["id"] + "-sysE", mode="sys", noise=1 + i % 2, werr=11) for i, c in enumerate(flt[::2])]
     if prop in ("C10", "C18"):
         out += big_batch_cases()
     out += scenario_cases(prop)
@@ -585,6 +589,8 @@ def variants(prop, tier, cases):
     stride = {"quick": 3, "thorough": 2}[tier] if prop != "C18" else 1      # (C18's loop-level part is about the real driver only)
     # an injected write failure carries EIO, EAGAIN or ENODEV in turn (the two the readers treat as "no data" / "device gone")
     out += [dict(c, id=c["id"] + "-sys%d" % (i % 4), mode="sys", noise=i % 4, werr=[5, 11, 19][(i // 3) % 3]) for i, c in enumerate(out[::stride])]
+    if prop in FAULT_PROPS:
+        out += out_eagain
     return out
 
 
